@@ -157,11 +157,28 @@ def gen_tables():
     return True, ""
 
 
+def write_coqproject():
+    """_CoqProject lists every .v file under coq/ (coqdep orders them)."""
+    files = []
+    for dp, dn, fns in os.walk(COQ):
+        dn.sort()
+        for fn in sorted(fns):
+            if fn.endswith(".v"):
+                files.append(os.path.relpath(os.path.join(dp, fn), COQ))
+    body = "-Q . PF\n" + "\n".join(sorted(files)) + "\n"
+    p = os.path.join(COQ, "_CoqProject")
+    if not os.path.exists(p) or open(p).read() != body:
+        with open(p, "w") as f:
+            f.write(body)
+        return True
+    return False
+
+
 def coq_make(targets=None, timeout=2400):
     """Full .vo build (incremental) of the given targets under coq/."""
     with Lock():
-        if not os.path.exists(os.path.join(COQ, "Makefile")) or \
-                os.path.getmtime(os.path.join(COQ, "Makefile")) < os.path.getmtime(os.path.join(COQ, "_CoqProject")):
+        changed = write_coqproject()
+        if changed or not os.path.exists(os.path.join(COQ, "Makefile")):
             rc, out = sh("coq_makefile -f _CoqProject -o Makefile", cwd=COQ)
             if rc != 0:
                 return False, out
